@@ -1,5 +1,5 @@
 #!/usr/bin/env python3
-"""par_harmless.py [--workers N] [--only h01,...]   (derived from par_rerun_seeded.py)
+"""par_harmless.py [--workers N] [--only h01,...] [--props C01,...]   (derived from par_rerun_seeded.py)
 
 Behaviour-preserving rewrites (seeded/harmless/*.diff) x all 20 quick checks: every (patch, property) pair must exit 0.
 
@@ -22,6 +22,7 @@ VERIF = os.path.dirname(os.path.dirname(os.path.abspath(__file__)))
 args = sys.argv[1:]
 workers = int(args[args.index("--workers") + 1]) if "--workers" in args else 6
 only = set(args[args.index("--only") + 1].split(",")) if "--only" in args else None
+props_only = set(args[args.index("--props") + 1].split(",")) if "--props" in args else None
 SCR = "/root/scratch"
 
 
@@ -39,6 +40,8 @@ for d in sorted(glob.glob(f"{VERIF}/seeded/harmless/*.diff")):
     if only and hid not in only:
         continue
     for i in range(1, 21):
+        if props_only and f"C{i:02d}" not in props_only:
+            continue
         tasks.append(dict(id=f"{hid}/C{i:02d}", prop=f"C{i:02d}", patch=d, dir=None))
 print(len(tasks), "changes,", workers, "workers", flush=True)
 lock = threading.Lock()
